@@ -70,8 +70,9 @@ def _clades(node, nodes):
     return s
 
 
-def _build(mk, desc, T, blsym, subst_kind, freqs):
-    """desc: dict(newick, taxa(list of names), seq_order(list), cols(list of column indices), tip_states, use_amb)"""
+def _build(mk, desc, T, blsym, subst_kind, freqs, site_pattern=None):
+    """desc: dict(newick, taxa(list of names), seq_order(list), cols(list of column indices), tip_states, use_amb).
+    site_pattern: a SitePattern object to SHARE (built from the same description) instead of a fresh one"""
     from torchtree.core.parameter import Parameter
     from torchtree.evolution.alignment import Alignment, Sequence
     from torchtree.evolution.datatype import NucleotideDataType
@@ -101,7 +102,9 @@ def _build(mk, desc, T, blsym, subst_kind, freqs):
         bl = torch.tensor([float(v) for v in vals], dtype=torch.float64)
     tm = UnRootedTreeModel("t", tree, taxa, Parameter("bl", bl))
     subst = JC69("jc") if subst_kind == "JC69" else C01.make_subst_stub(mk, freqs, 4)
-    return TreeLikelihoodModel("like", SitePattern("sp", aln), tm, subst, ConstantSiteModel("sm"),
+    if site_pattern == "make":
+        return SitePattern("sp", aln)
+    return TreeLikelihoodModel("like", site_pattern if site_pattern is not None else SitePattern("sp", aln), tm, subst, ConstantSiteModel("sm"),
                                use_ambiguities=desc.get("use_amb", True), use_tip_states=desc.get("tip_states", False))
 
 
@@ -125,6 +128,39 @@ def scn_relational(T, descA, descB, subst_kind):
         mA = _build(mk, descA, T, blsym, subst_kind, freqs)
         mB = _build(mk, descB, T, blsym, subst_kind, freqs)
         return [("eq", "same_loglik_for_both_writeups", mA(), mB())]
+    return scn
+
+
+def scn_shared_site_pattern(T, base, variants):
+    """ONE SitePattern object shared by several likelihood models built one after the other (as when it is defined once in a JSON file and
+    referenced by id) with different data-representation options (use_ambiguities / use_tip_states), in the given order: every model's value
+    equals that of the same model built on its own fresh SitePattern — the way the data is written down (here: shared or not, and the order
+    the models are declared in) does not change the likelihood."""
+    def scn(mk):
+        names = NAMES[:T]
+        allnames = frozenset(names)
+        nodesA, rootA = trees.index_tree(trees.parse_newick(base["newick"]), base["taxa"])
+        keys = []
+        for i in range(2 * T - 2):
+            cl = _clades(i, nodesA)
+            key = min(tuple(sorted(cl)), tuple(sorted(allnames - cl)))
+            if key not in keys:
+                keys.append(key)
+        t = mk.real("t", (len(keys),), lo=0)
+        blsym = {k: el(t, (i,)) for i, k in enumerate(keys)}
+        freqs = mk.real("pi", (4,), lo=0)
+        shared = _build(mk, base, T, blsym, "stub", freqs, site_pattern="make")
+        got, want = [], []
+        models = []
+        for v in variants:      # construct ALL sharing models first (construction is where tips are computed), then evaluate
+            models.append(_build(mk, dict(base, **v), T, blsym, "stub", freqs, site_pattern=shared))
+        for v, m in zip(variants, models):
+            got.append(m())
+            want.append(_build(mk, dict(base, **v), T, blsym, "stub", freqs)())
+        cl = []
+        for k, v in enumerate(variants):
+            cl.append(("eq", "model%d_%s_on_shared_pattern_equals_own_pattern" % (k, "+".join("%s=%s" % kv for kv in sorted(v.items()))), got[k], want[k]))
+        return cl
     return scn
 
 
@@ -333,6 +369,20 @@ def obligations(tier, seed):
                 tb = _reroot(tree, target)
                 b = dict(base, newick=trees.to_newick(tb, names))
                 add("C02.reroot.JC69[%s -> %s]" % (base["newick"], b["newick"]), (T, base, b, "JC69"), "root placement (pulley principle, JC69 exact)")
+    # one SitePattern shared by models with different options, every declaration order
+    V3 = [{"use_amb": True}, {"use_amb": False}, {"tip_states": True}]
+    base3 = {"newick": trees.to_newick(((0, 1), 2), NAMES[:3]), "taxa": NAMES[:3], "seq_order": NAMES[:3], "cols": list(range(9))}
+    base4 = {"newick": trees.to_newick(((0, 3), (1, 2)), NAMES[:4]), "taxa": NAMES[:4], "seq_order": NAMES[:4], "cols": [3, 4, 7, 8]}
+    import itertools as _it
+    for order in _it.permutations(range(3)):
+        vs = [V3[i] for i in order]
+        obs.append(scenario_ob("C02", "C02.shared_site_pattern[T=3,order=%s]" % ",".join("+".join(sorted(v)) + "=" + str(list(v.values())[0]) for v in vs), "V",
+                               "scn_shared_site_pattern", (3, base3, vs), clause="a shared SitePattern / the declaration order of the models does not change the likelihood",
+                               funcs=FUNCS, seed=seed, fns={"P": lambda t, i, j: C01._pfun(t, i, j, 4)}))
+    for vs in ([V3[0], V3[1]], [V3[1], V3[0]], [V3[0], V3[2]], [V3[2], V3[0]]):
+        obs.append(scenario_ob("C02", "C02.shared_site_pattern[T=4,order=%s]" % ",".join("+".join(sorted(v)) + "=" + str(list(v.values())[0]) for v in vs), "V",
+                               "scn_shared_site_pattern", (4, base4, vs), clause="a shared SitePattern / the declaration order of the models does not change the likelihood",
+                               funcs=FUNCS, seed=seed, fns={"P": lambda t, i, j: C01._pfun(t, i, j, 4)}))
     obs.append(ob_keep_branch_lengths(tier, seed))
     obs.append(ob_datatype_consistency())
     obs.append(ob_reroot_numeric(seed))
